@@ -4,11 +4,12 @@ import ScyllaVerif.Model.PartitionKey
 /-! Line-protocol driver for C03.  Input: `<case>\t<implementation output>`; output: the model's line.
 
 * `hash <hex> <chunk lengths>`   → `<finish (chunks.foldl write init)> <murmur3Spec data>`
-* `cdc <hex> <chunk lengths>`    → `<cdcFinish (chunks.foldl cdcWrite cdcInit)> <cdcSpec data>`
+* `cdc <hex> <chunk lengths>`    → `<cdcFinish (chunks.foldl cdcWrite cdcInit)> <cdcRust data>`
 * `vector <hex> <expected>`      → `<murmur3Spec data>`
 * `pkidx <wire indexes>`         → the sorted `index:sequence` list (checker mode when marker indexes repeat)
 * `token <cdc 0|1> <wire> <values…>` → `pk=… tok=… key=…`
 * `ptoken <cdc 0|1> <values…>`   → `calculate_token_for_partition_key`
+* `pname <hex utf-8 name | N>`   → `parsed=<from_str> selected=<partitioner after unwrap_or_default>`
 Value syntax: hex, `-` (empty), `N` (null), `U` (unset), `z<len>x<hh>` (`len` bytes, byte `i` = `hh + 7 i mod 256`). -/
 namespace ScyllaVerif.Drive.C03
 open ScyllaVerif.Util ScyllaVerif.Murmur3 ScyllaVerif.PartitionKey
@@ -54,6 +55,7 @@ def showExtractErr : ExtractErr → String
 def showTokenErr : TokenErr → String
   | .extraction e => showExtractErr e
   | .valueTooLong n => s!"err tooLong {n}"
+  | .serialization => "err serialization"
 
 def showKey (k : List UInt8) : String :=
   if k.length ≤ 64 then toHex k else s!"len{k.length}:{murmur3Spec k}"
@@ -76,7 +78,7 @@ def run (case impl : String) : String :=
     match parseHex hex, parseNatList lens with
     | some data, some ls =>
       match splitChunks data ls with
-      | some chunks => s!"{cdcFinish (chunks.foldl cdcWrite cdcInit)} {cdcSpec data}"
+      | some chunks => s!"{cdcFinish (chunks.foldl cdcWrite cdcInit)} {cdcRust data}"
       | none => "bad-case"
     | _, _ => "bad-case"
   | ["vector", hex, _expected] =>
@@ -114,11 +116,11 @@ def run (case impl : String) : String :=
             if (obs.zip obs.tail).all (fun (a, b) => a.index ≤ b.index) &&
                 obs.mergeSort lexLe == stable.mergeSort lexLe then obs else stable
           | none => stable
-      let tok := match calculateToken cdc pk values with
+      let tok := match boundCalculateToken cdc pk values with
         | .ok none => "none"
         | .ok (some t) => s!"ok {t}"
         | .error e => showTokenErr e
-      let key := match computePartitionKey pk values with
+      let key := match boundComputePartitionKey pk values with
         | .ok k => showKey k
         | .error e => showTokenErr e
       s!"pk={showPk pk} tok={tok} key={key}"
@@ -130,6 +132,14 @@ def run (case impl : String) : String :=
       | .ok t => s!"ok {t}"
       | .error n => s!"err tooLong {n}"
     | _, _ => "bad-case"
+  | ["pname", name] =>
+    let showP : PartitionerName → String := fun p => match p with | .murmur3 => "murmur3" | .cdc => "cdc"
+    if name == "N" then s!"parsed=none selected={showP (selectPartitioner none)}"
+    else match parseHex name with
+      | some bs =>
+        let parsed := match partitionerFromStr bs with | none => "none" | some p => showP p
+        s!"parsed={parsed} selected={showP (selectPartitioner (some bs))}"
+      | none => "bad-case"
   | _ => "bad-case"
 
 end ScyllaVerif.Drive.C03
